@@ -114,6 +114,7 @@ type VC struct {
 	heapElem map[string]types.Type
 	heapRows map[string]bool
 	appSeq   int
+	panicWhat []string
 	curApp   int // id of the contract application being evaluated (0: the function's own contract)
 	heapMapKey map[string]string // map-value heaps: SMT sort of the key
 	ghost    map[string]bool
